@@ -11,8 +11,17 @@ def declare(reg):
             if base in reg.exc_parents and cls not in reg.exc_parents:
                 reg.exc_parents[cls] = base
 
+    # context managers (regex on the source text of the `with` item -> kind)
+    reg.context_managers += [
+        (r"self\.mh_sequences_lock", "lock"),
+        (r"self\.db_lock", "lock"),
+        (r".*\.lock_folder\(\)", "lock"),
+        (r".*active_mailboxes_lock", "lock"),
+        (r"asyncio\.timeout\(.*\)", "timeout"),
+    ]
     # what _p_msg_set produces: ints, "*", and (a, b) with a, b in int | "*"
     reg.union("IntOrStar", ["int", "str"])
+    reg.union("StrOrList", ["str", "list[str]"])
     reg.union("MsgElt", ["int", "str", "tuple[IntOrStar,IntOrStar]"])
 
     reg.specfn("wf_bnd", "b: IntOrStar", "bool", 'isinstance(b, int) or b == "*"')
